@@ -1,7 +1,7 @@
 #!/bin/sh
 # usage: tools/try_seed.sh <patch.diff> [checks...]   -- applies the patch to /repo, runs the checks, reverts
 PATCH=$1; shift
-CHECKS=${@:-"C01 C02 C03 C04 C11 C12 C13 C14 C15 C16 C18 C05 C06 C07 C08 C09 C10"}
+CHECKS=${@:-"C01 C02 C03 C04 C11 C12 C13 C14 C15 C16 C17 C18 C05 C06 C07 C08 C09 C10"}
 cd /repo || exit 2
 git status --short | grep -q . && { echo "/repo not clean"; exit 2; }
 git apply --whitespace=nowarn "$PATCH" || { echo "patch does not apply"; exit 2; }
